@@ -1363,7 +1363,7 @@ def run(chk) -> None:
     # an encoder must read the same conflict graph / regions whatever was asked of the object before
     from checks import c01e
 
-    why = c01e.history_fact(chk, c01e.ENCODER_QUERIES)
+    why = c01e.history_fact(chk, c01e.ENCODER_QUERIES, actions=c01e.DERIVATIONS)
     if why is not None:
         chk.ok("history-independent", "-", f"call histories not evaluable ({why[:120]}); writes to shared state are C12's effect analysis")
     n_pred = 3 - sum(1 for t in ("conflict-graph:BpSeq.convert_to_dot_bracket", "conflict-graph:BpSeq.all_dot_brackets", "fcfs") if decided(chk, t))
